@@ -62,7 +62,7 @@ class Sys:
         ins(r'^TypeId::of::<(.*)>$', lambda e, st, fr, t, a: VConst('TypeId:' + self.subst_type(fr, re.match(r'^TypeId::of::<(.*)>$', t.func, re.S).group(1))))
         ins(r'^<LazyLock<Atomic(U64|<u64>)> as Deref>::deref$', lambda e, st, fr, t, a: VConst('CONTEXT_ID_COUNTER'))
         ins(r'^Atomic(U64)?(::<u64>)?::fetch_add$', self.m_ctx_id)
-        ins(r'^<LazyLock<async_lock::RwLock<HashMap<.*>>> as Deref>::deref$', self.m_registry)
+        ins(r'^<LazyLock<async_lock::RwLock<.*>> as Deref>::deref$', self.m_registry)
         ins(r'^<EnvironmentConfig as Default>::default$', lambda e, st, fr, t, a: VAgg(name='EnvironmentConfig', fields={('f', 0): NONE, ('f', 1): VScalar(False)}, extra={'fieldnames': ('timeout', 'fail_on_timeout')}))
         ins(r'^futures::stream::poll_fn::<', lambda e, st, fr, t, a: VAgg(name='PollFn', fields={('f', 0): a[0]}))
         ins(r'^<futures::stream::PollFn<.*> as StreamExt>::next$', lambda e, st, fr, t, a: VAgg(name='StreamNext', fields={('f', 0): a[0]}))
@@ -345,6 +345,10 @@ class Sys:
             k = st.meta.get(('clones', m.extra['id']), 0) + 1
             st.meta[('clones', m.extra['id'])] = k
             return Msg.new(f"{m.extra['id']}#{k}")
+        if isinstance(m, VAgg):
+            # not a scripted message: a generic parameter that happens to be called M / T (e.g. a sender type) -
+            # cloned by its own Clone semantics (handles count their clones)
+            return NotImplemented
         return m
 
     def run_drop_impl(self, st, val, impl):
@@ -549,7 +553,15 @@ class Sys:
         """the global REGISTRY: LazyLock<RwLock<HashMap<TypeId, AnyBox>>> - one lock object per state"""
         oid = st.meta.get('registry')
         if oid is None:
-            lock = st.alloc(VAgg(name='model:lock', fields={('f', 0): VAgg(name='HashMap', fields={}, extra={'keys': ()})},
+            # the protected value is what the static's initialiser makes: LazyLock::new(Default::default) - a HashMap in
+            # the original code, any `T: Default` of the crate otherwise (its Default impl is executed)
+            m = re.match(r'^<LazyLock<async_lock::RwLock<(.*)>> as Deref>::deref$', t.func or '', re.S)
+            inner_ty = m.group(1).strip() if m else 'HashMap'
+            if re.match(r'^(std::collections::)?HashMap<', inner_ty) or inner_ty == 'HashMap':
+                inner = VAgg(name='HashMap', fields={}, extra={'keys': ()})
+            else:
+                inner = self.sync_call(st, f"<{inner_ty} as Default>::default", [])
+            lock = st.alloc(VAgg(name='model:lock', fields={('f', 0): inner},
                                  extra={'writer': False, 'readers': 0, 'ver': 0}))
             oid = st.alloc(S.handle('AsyncLock', lock))
             st.meta['registry'] = oid
